@@ -76,6 +76,9 @@ def post_explore(ctx, res, pids, opts):
               "modes": 0, "param_spaces_capped": 0}
     keys = list(res["seen"].keys())
     n_flat = len(ctx.actions) - 1
+    if res.get("capped"):
+        # capped (16-host) scenarios: observation checks on the first 150 explored states only
+        keys = keys[:150]
     for mode in MODES:
         fo, fa, f1 = mode
         env = NASimEnv(ctx.scenario, fully_obs=fo, flat_actions=fa, flat_obs=f1)
@@ -88,7 +91,7 @@ def post_explore(ctx, res, pids, opts):
         _obs_checks(ctx, env, ctx.scenario, r[0], mode, None, "reset")
         # ---------------- every reachable state x every flat action, through step()
         ok = True
-        for s, key in zip(res["order"], keys):
+        for s, key in zip(res["order"][: len(keys)], keys):
             for a_idx in range(n_flat + 1):
                 mact = ctx.mactions[a_idx]
                 if mact is None:
@@ -201,9 +204,67 @@ def post_explore(ctx, res, pids, opts):
     return counts
 
 
+def generated_reset_observations(tier):
+    """reset()/first-step observations of GENERATED scenarios (benchmark sets and grid parameter sets x seeds)
+    against the advertised dims and the observation space, in 1D and 2D, partially and fully observable"""
+    nasim = import_nasim()
+    from nasim.envs import NASimEnv
+    from nasim.scenarios.benchmark import AVAIL_GEN_BENCHMARKS
+    from .chk_generator import grid, realise
+    from .sweep import seam
+    sm = seam()
+    viol, n = [], 0
+    psets = []
+    for name in ["tiny-gen", "small-gen", "small-gen-rgoal", "medium-gen", "large-gen", "huge-gen"]:
+        for seed in range(6 if tier == "quick" else 30):
+            p = dict(AVAIL_GEN_BENCHMARKS[name]); p["seed"] = seed
+            psets.append(p)
+    for row in grid("quick")[:: (2 if tier == "quick" else 1)]:
+        if row["alpha_V"] == 1.0 or row["num_privescs"] not in ("none", "one"):
+            continue
+        for seed in range(4 if tier == "quick" else 12):
+            psets.append(realise(row, seed))
+    for seed in range(20 if tier == "quick" else 60):
+        psets.append({"num_hosts": 8, "num_services": 4, "num_exploits": 3, "seed": seed})
+    for p in psets:
+        try:
+            sc = nasim.generate_scenario(**dict(p))
+        except Exception:
+            continue            # C15's matter
+        sc.name = "verif"
+        dims = tuple(int(x) for x in sc.get_observation_dims())
+        for fo, f1 in ((False, True), (True, False)):
+            env = NASimEnv(sc, fully_obs=fo, flat_actions=True, flat_obs=f1)
+            o, _ = env.reset()
+            sm.arm(1e-9)
+            o2, *_ = env.step(0)
+            n += 2
+            want = dims if not f1 else (dims[0] * dims[1],)
+            for what, ob in (("reset", o), ("step", o2)):
+                prob = None
+                if tuple(np.asarray(ob).shape) != want or tuple(env.observation_space.shape) != want:
+                    prob = f"shape {np.asarray(ob).shape} / space {env.observation_space.shape} vs advertised {want}"
+                elif np.asarray(ob).dtype != np.float32:
+                    prob = f"dtype {np.asarray(ob).dtype}"
+                elif not env.observation_space.contains(ob):
+                    prob = "outside observation_space"
+                if prob:
+                    viol.append({"property": "C10", "kind": "observation_violates_space:generated_" + what,
+                                 "engine": "generated", "params": {k: v for k, v in p.items()},
+                                 "detail": {"fully_obs": fo, "flat_obs": f1, "problem": prob}})
+                    break
+    seen, uniq = set(), []
+    for v in viol:
+        k = (v["kind"], v["detail"]["problem"][:20])
+        if k not in seen:
+            seen.add(k); uniq.append(v)
+    return uniq, n
+
+
 def run(pid, tier):
     t0 = time.time()
     agg, violations, errors = run_family(["C10"], tier, {"post": ["chk_gym"]})
+    gen_viol, gen_n = generated_reset_observations(tier)
     if errors:
         raise HarnessError("; ".join(errors[:3]))
     ex = agg.get("extra", {}).get("chk_gym", {})
@@ -230,10 +291,22 @@ def run(pid, tier):
     }
     assume = ["sample() is enumerated by replacing the space's np_random with a stub; 0-d ndarray inputs are not demanded",
               "observations are produced by step() with the state installed through the public current_state attribute"]
-    return finish(pid, tier, cov, [v for v in violations if v["property"] == "C10"], assume, t0)
+    cov["generated_scenario_observations"] = gen_n
+    return finish(pid, tier, cov, [v for v in violations if v["property"] == "C10"] + gen_viol, assume, t0)
 
 
 def replay(pid, rec):
+    if rec.get("engine") == "generated":
+        nasim = import_nasim()
+        from nasim.envs import NASimEnv
+        sc = nasim.generate_scenario(**rec["params"])
+        dims = tuple(int(x) for x in sc.get_observation_dims())
+        d = rec["detail"]
+        env = NASimEnv(sc, fully_obs=d["fully_obs"], flat_actions=True, flat_obs=d["flat_obs"])
+        o, _ = env.reset()
+        want = dims if not d["flat_obs"] else (dims[0] * dims[1],)
+        bad = tuple(np.asarray(o).shape) != want or not env.observation_space.contains(o)
+        return [{"kind": rec["kind"], "detail": {"shape": list(np.asarray(o).shape), "advertised": list(want)}}] if bad else []
     from .sweep import make_ctx
     from .explore import explore
     from .spec import spec_from_json
